@@ -12,6 +12,7 @@ import (
 	"io"
 	"net"
 	"sync"
+	"sync/atomic"
 	"time"
 
 	"mellium.im/xmlstream"
@@ -109,7 +110,7 @@ type Conn struct {
 	s              *xmpp.Session
 	writeBuf       *bufio.Writer
 	seq            uint16
-	closed         bool
+	closed         atomic.Bool
 	stanzaWriter   *stanzaWriter
 	maxBufSize     int
 }
@@ -198,7 +199,7 @@ func (c *Conn) Read(b []byte) (n int, err error) {
 // Write can be made to time out and return an Error with Timeout() == true
 // after a fixed time limit; see SetDeadline and SetWriteDeadline.
 func (c *Conn) Write(b []byte) (n int, err error) {
-	if c.closed {
+	if c.closed.Load() {
 		return 0, io.EOF
 	}
 	c.writeLock.Lock()
@@ -245,10 +246,9 @@ func (c *Conn) flush(t xmlstream.Encoder) error {
 // Any blocked Read or Write operations will be unblocked and return errors.
 // If the write buffer contains data it will be flushed.
 func (c *Conn) Close() error {
-	if c.closed {
+	if !c.closed.CompareAndSwap(false, true) {
 		return nil
 	}
-	c.closed = true
 	defer c.closeRead()
 
 	// Flush any remaining data to be written.
@@ -297,10 +297,9 @@ func (c *Conn) closeRead() {
 }
 
 func (c *Conn) closeNoNotify(t xmlstream.Encoder) error {
-	if c.closed {
+	if !c.closed.CompareAndSwap(false, true) {
 		return nil
 	}
-	c.closed = true
 	defer c.closeRead()
 
 	// Flush any remaining data to be written.
